@@ -5,6 +5,9 @@ Tie:    structural comparison of optyx.gradient(e, v) (all three tiers of the re
         `Py.grad v e` — exact, no numerics.
 Oracle: forward-mode dual numbers in the harness (oracle.py) vs gradient(e, v).evaluate(p)
         at regular points; `v` not occurring ⇒ the result must be the literal Constant 0.
+        Magnitude family (checklist 1): constants of every magnitude class (tiny 1e-300 … 1e-6, within 2^-52 … 1e-6
+        of ±1, huge 1e6 … 1e300) in every multiplicative / chain / exponent / coefficient position, judged
+        RELATIVELY to the true derivative (numeric_check_rel), because such a derivative is itself 1e-9-small.
 """
 from __future__ import annotations
 
@@ -203,6 +206,415 @@ def size_cover(rng, thorough):
     return out
 
 
+# ------------------------------------------------------------------ magnitudes of the stored numbers (checklist 1)
+
+EPS = 2.0 ** -52
+MAG_RTOL = 2e-13          # relative; a constant within 1e-12 of 1 that is dropped from a product is still seen
+MAG_CLASSES = ("tiny", "near1", "huge")
+
+
+def magnitudes(rng):
+    """{class: [values]}: non-zero constants that are NOT 0 / 1 but close to them on some scale, and huge ones.
+    Mantissas come from the run's PRNG; the round thresholds a tolerance test would use are included literally."""
+    def m():
+        return rng.randint(100, 950) / 100.0
+
+    tiny = [m() * 10.0 ** k for k in (-9, -10, -8, -11, -7, -12, -6, -13, -16, -30, -90, -150, -300)]
+    tiny = [1e-9, 1e-10, 0.99e-8, 1e-8, 1.01e-8, 1e-12, 1e-7] + tiny
+    near1 = []
+    for d in (1e-9, 1e-10, 1e-8, 1e-11, 1e-7, 1e-12, 1e-6, 1e-13, 1e-14, 1e-15, 2.0 ** -50, 2.0 ** -52):
+        dd = d if d < 1e-15 else d * rng.randint(100, 500) / 100.0
+        near1 += [1.0 + dd, 1.0 - dd]
+    near1 += [1.0 + 1e-9, 1.0 - 1e-9, 1.0 + 1e-8, 1.0 - 1e-12]
+    huge = [m() * 10.0 ** k for k in (6, 8, 9, 12, 16, 17, 30, 90, 150, 300)]
+    out = {"tiny": tiny + [-v for v in tiny[::2]], "near1": near1 + [-v for v in near1[::3]],
+           "huge": huge + [-v for v in huge[::2]]}
+    return out
+
+
+def mag_templates(U):
+    """[(tag, builder(c) -> expression, exact)]: one constant of magnitude c in every position through which the
+    differentiator carries a stored number multiplicatively: factor of a product (either side, nested, next to every
+    kind of co-factor), numerator, denominator, inner / outer coefficient of every unary function, exponent and
+    exponent - 1, base, coefficient entries of LinearCombination / QuadraticForm / MatrixVectorProduct (bare, under an
+    outer function, over views and vector expressions), scalings of vectors and matrices under every reduction,
+    plus the rescaled forms (c·x)·(1/c) whose true derivative is O(1).
+    exact = the rules do no float arithmetic on the stored numbers for this shape (such arithmetic, e.g. n - 1 or
+    Q + Q.T, is exact over the rationals of the Lean model but rounded in Python: no structural comparison then)."""
+    from optyx.core.expressions import Constant as C, UnaryOp
+    from optyx.core import vectors as V
+    from optyx.core import matrices as M
+
+    x, y = U.scalars[0], U.scalars[1]
+    vx, vy, n = U.x, U.y, U.n
+    T = []
+
+    def add(tag, f, exact=True):
+        T.append((tag, f, exact))
+
+    sin = lambda a: UnaryOp(a, "sin")  # noqa: E731
+    # --- products
+    add("c*x", lambda c: C(c) * x)
+    add("x*c", lambda c: x * C(c))
+    add("(c*x)*y", lambda c: (C(c) * x) * y)
+    add("y*(x*c)", lambda c: y * (x * C(c)))
+    add("x*(c*y)", lambda c: x * (C(c) * y))
+    add("c*(x*y)", lambda c: C(c) * (x * y))
+    add("(x*y)*c", lambda c: (x * y) * C(c))
+    add("c*x**3", lambda c: C(c) * x ** 3)
+    add("(c*x)**3", lambda c: (C(c) * x) ** 3)
+    add("(x*c)**2*y", lambda c: (x * C(c)) ** 2 * y)
+    add("(c*x)**2.5", lambda c: (C(c) * x) ** 2.5)
+    add("(c*x)**-1", lambda c: (C(c) * x) ** -1)
+    add("t*t", lambda c: (lambda t: t * t)(C(c) * x))
+    add("(c*x)*x", lambda c: (C(c) * x) * x)
+    add("c*sin(x)*y", lambda c: C(c) * sin(x) * y)
+    add("sin(x)*(c*y)", lambda c: sin(x) * (C(c) * y))
+    add("-(c*x)", lambda c: -(C(c) * x))
+    add("(-x)*c", lambda c: (-x) * C(c))
+    # --- quotients
+    add("x/c", lambda c: x / C(c))
+    add("c/x", lambda c: C(c) / x)
+    add("(c*x)/y", lambda c: (C(c) * x) / y)
+    add("y/(c*x)", lambda c: y / (C(c) * x))
+    add("x/(c*y)", lambda c: x / (C(c) * y))
+    add("(x/c)/y", lambda c: (x / C(c)) / y)
+    add("y/(x/c)", lambda c: y / (x / C(c)))
+    add("c/(x*x+1)", lambda c: C(c) / (x * x + 1.0))
+    add("(x*x+1)/c", lambda c: (x * x + 1.0) / C(c))
+    add("sin(x)/(c*y)", lambda c: sin(x) / (C(c) * y))
+    # --- next to an ordinary term (the small term must survive the sum of the derivative)
+    add("c*x+sin(x)", lambda c: C(c) * x + sin(x))
+    add("sin(x)-c*x", lambda c: sin(x) - C(c) * x)
+    add("c*x+y*x", lambda c: C(c) * x + y * x)
+    add("x/c+x", lambda c: x / C(c) + x)
+    add("c*x-x*y", lambda c: C(c) * x - x * y)
+    # --- rescaled: the true derivative is O(1) (or exactly (c-1)·K)
+    add("(c*x)*(1/c)", lambda c: (C(c) * x) * C(1.0 / c))
+    add("(1/c)*(x*c)", lambda c: C(1.0 / c) * (x * C(c)))
+    add("(x/c)*c", lambda c: (x / C(c)) * C(c))
+    add("(c*x)/c", lambda c: (C(c) * x) / C(c))
+    add("sin(c*x)*(1/c)", lambda c: sin(C(c) * x) * C(1.0 / c))
+    add("(c*x-x)*K", lambda c: (C(c) * x - x) * C(1.0 / (c - 1.0)))
+    add("(x*c-x)*K*y", lambda c: (x * C(c) - x) * C(1.0 / (c - 1.0)) * y)
+    # --- chain rule: inner coefficient, shifted inner coefficient, inner divisor, outer coefficient
+    for op in gen.UNARY:
+        s = 2.0 if op == "acosh" else 0.25
+        add(f"{op}(c*x)", lambda c, op=op: UnaryOp(C(c) * x, op))
+        add(f"{op}(x*c+s)", lambda c, op=op, s=s: UnaryOp(x * C(c) + s, op))
+        add(f"{op}(x/c)", lambda c, op=op: UnaryOp(x / C(c), op))
+        add(f"c*{op}(x)", lambda c, op=op: C(c) * UnaryOp(x, op))
+        add(f"{op}(y+s)*(c*x)", lambda c, op=op, s=s: UnaryOp(y + s, op) * (C(c) * x))
+    # --- exponent, exponent - 1, base
+    add("x**c", lambda c: x ** C(c), False)
+    add("(x*x+1)**c", lambda c: (x * x + 1.0) ** C(c), False)
+    add("x**(1+c)", lambda c: x ** C(1.0 + c), False)
+    add("x**(2+c)", lambda c: x ** C(2.0 + c), False)
+    add("(x*y)**(c+0.5)", lambda c: (x * y) ** C(c + 0.5), False)
+    add("x**(c*y)", lambda c: x ** (C(c) * y))
+    add("(x*x+1)**(y*c)", lambda c: (x * x + 1.0) ** (y * C(c)))
+    add("c**x", lambda c: C(c) ** x)
+    add("c**(x*y)", lambda c: C(c) ** (x * y))
+    add("(c*x)**y", lambda c: (C(c) * x) ** y)
+
+    # --- coefficient entries of the vector / matrix nodes
+    def cs(c, pos):
+        a = np.array(([2.0, -1.0, 0.5] + [1.0] * n)[:n])
+        a[pos] = c
+        return a
+
+    def ve():
+        return V.VectorExpression([sin(vx[0]), vx[1] * vy[0]] + [vx[i] + 1.0 for i in range(2, n)])
+
+    A0 = np.array([[((7 * i + 3 * j) % 11 - 5) / 4.0 or 0.75 for j in range(n)] for i in range(n)])
+
+    def Ac(c, i, j):
+        a = A0.copy()
+        a[i, j] = c
+        return a
+
+    for pos in (0, n - 1):
+        add(f"lc{pos}(x)", lambda c, pos=pos: V.LinearCombination(cs(c, pos), vx))
+        add(f"c@x{pos}", lambda c, pos=pos: cs(c, pos) @ vx)
+        add(f"lc{pos}(rev)", lambda c, pos=pos: V.LinearCombination(cs(c, pos), vx[::-1]))
+        add(f"lc{pos}(x+1)", lambda c, pos=pos: V.LinearCombination(cs(c, pos), vx + 1.0))
+        add(f"lc{pos}(ve)", lambda c, pos=pos: V.LinearCombination(cs(c, pos), ve()))
+        add(f"lc{pos}(A@y)", lambda c, pos=pos: V.LinearCombination(cs(c, pos), M.MatrixVectorProduct(A0, vy)))
+        add(f"sin(lc{pos}(x))", lambda c, pos=pos: sin(V.LinearCombination(cs(c, pos), vx)))
+        add(f"sin(lc{pos}(x))/c", lambda c, pos=pos: sin(V.LinearCombination(cs(c, pos), vx)) * C(1.0 / c))
+        add(f"exp(tanh(lc{pos}(ve)))", lambda c, pos=pos: UnaryOp(UnaryOp(V.LinearCombination(cs(c, pos), ve()), "tanh"), "exp"))
+        add(f"L*L{pos}", lambda c, pos=pos: (lambda L: L * L)(V.LinearCombination(cs(c, pos), vx)))
+        add(f"lc{pos}(x)*y0", lambda c, pos=pos: V.LinearCombination(cs(c, pos), vx) * vy[0])
+        add(f"y0/(lc{pos}(x)**2+1)", lambda c, pos=pos: vy[0] / (V.LinearCombination(cs(c, pos), vx) ** 2 + 1.0))
+    Q0 = np.array([[(i + 1.0) * (j - 1.0) + (0.5 if i == j else 0.0) for j in range(n)] for i in range(n)])
+
+    def Qc(c, i, j, mirror):
+        q_ = Q0.copy()
+        q_[i, j] = c
+        if i != j and not mirror:
+            q_[j, i] = 0.0
+        return q_
+
+    for (i, j, mirror) in ((0, 0, False), (0, 1, False), (n - 1, 0, False), (0, 1, True), (1, n - 1, True)):
+        ex = not mirror       # Q + Q.T is exact when the mirrored entry is 0 (or the entry is on the diagonal)
+        t = f"{i}{j}{'m' if mirror else ''}"
+        add(f"qf{t}(x)", lambda c, a=(i, j, mirror): M.QuadraticForm(vx, Qc(c, *a)), ex)
+        add(f"qf{t}(x+1)", lambda c, a=(i, j, mirror): M.QuadraticForm(vx + 1.0, Qc(c, *a)), ex)
+        add(f"qf{t}(x-y)", lambda c, a=(i, j, mirror): M.QuadraticForm(vx - vy, Qc(c, *a)), ex)
+        add(f"qf{t}(ve)", lambda c, a=(i, j, mirror): M.QuadraticForm(ve(), Qc(c, *a)), ex)
+        add(f"sin(qf{t}(x))", lambda c, a=(i, j, mirror): sin(M.QuadraticForm(vx, Qc(c, *a))), ex)
+        add(f"qf{t}(x)*y0", lambda c, a=(i, j, mirror): M.QuadraticForm(vx, Qc(c, *a)) * vy[0], ex)
+    # --- scaled vectors / matrices under every reduction
+    add("(c*x).sum", lambda c: (c * vx).sum())
+    add("(x/c).sum", lambda c: (vx / c).sum())
+    add("(c*x).y", lambda c: V.DotProduct(c * vx, vy))
+    add("x.(y*c)", lambda c: V.DotProduct(vx, vy * c))
+    add("(c*x).x", lambda c: V.DotProduct(c * vx, vx))
+    add("s.s", lambda c: (lambda s_: V.DotProduct(s_, s_))(c * vx))
+    add("(c*x).(A@y)", lambda c: V.DotProduct(c * vx, M.MatrixVectorProduct(A0, vy)))
+    add("l2(c*x)", lambda c: V.L2Norm(c * vx))
+    add("l2(c*x)/c", lambda c: V.L2Norm(c * vx) * C(1.0 / c))
+    add("l1(c*x)", lambda c: V.L1Norm(c * vx))
+    add("l2(x-c*y)", lambda c: V.L2Norm(vx - c * vy))
+    add("lc(c*x)", lambda c: V.LinearCombination(cs(2.0, 0), c * vx))
+    add("qf(c*x)", lambda c: M.QuadraticForm(c * vx, Q0))
+    add("sin((c*x).y)", lambda c: sin(V.DotProduct(c * vx, vy)))
+    add("ps(x,c)", lambda c: V.VectorPowerSum(vx, c), False)
+    add("ps(x,1+c)", lambda c: V.VectorPowerSum(vx, 1.0 + c), False)
+    add("ps(x,2+c)", lambda c: V.VectorPowerSum(vx, 2.0 + c), False)
+    add("c*ps(x,3)", lambda c: C(c) * V.VectorPowerSum(vx, 3))
+    add("c*us(x,sin)", lambda c: C(c) * V.VectorUnarySum(vx, "sin"))
+    add("us(x,exp)/c", lambda c: V.VectorUnarySum(vx, "exp") / C(c))
+    add("c*sum(x)", lambda c: C(c) * V.VectorSum(vx))
+    add("sin(c*sum(x))", lambda c: sin(C(c) * V.VectorSum(vx)))
+    for (i, j) in ((0, 0), (1, n - 1)):
+        add(f"sum(A{i}{j}@y)", lambda c, a=(i, j): M.MatrixVectorProduct(Ac(c, *a), vy).sum())
+        add(f"(A{i}{j}@y).x", lambda c, a=(i, j): V.DotProduct(M.MatrixVectorProduct(Ac(c, *a), vy), vx))
+        add(f"l2(A{i}{j}@y)", lambda c, a=(i, j): V.L2Norm(M.MatrixVectorProduct(Ac(c, *a), vy)))
+        add(f"sin(sum(A{i}{j}@y))", lambda c, a=(i, j): sin(M.MatrixVectorProduct(Ac(c, *a), vy).sum()))
+    add("(c*M).sum", lambda c: (c * U.M).sum())
+    add("(S*c).sum", lambda c: (U.S * c).sum())
+    add("c*fro(M)", lambda c: C(c) * M.FrobeniusNorm(U.M))
+    add("sin(c*sum(S))", lambda c: sin(C(c) * U.S.sum()))
+    return T
+
+
+def magnitude_cover(rng, full):
+    """[(tag, expr, wrt, c, exact)]: every template × magnitudes of every class (quick: a PRNG sample of each class per
+    template, one occurring variable; full: all magnitudes, every occurring variable)"""
+    U = gen.Universe(rng)
+    mags = magnitudes(rng)
+    per = {"tiny": 3, "near1": 3, "huge": 2}
+    out = []
+    for tag, build, exact in mag_templates(U):
+        for cls in MAG_CLASSES:
+            vals = mags[cls] if full else rng.sample(mags[cls], per[cls])
+            for c in vals:
+                try:
+                    with warnings.catch_warnings(), np.errstate(all="ignore"):
+                        warnings.simplefilter("ignore")
+                        e = build(c)
+                except (ZeroDivisionError, OverflowError):
+                    continue
+                vs = gen.expr_vars(e)
+                if not vs:
+                    continue
+                ws = vs if full else [rng.choice(vs)]
+                if full and len(ws) > 3:
+                    ws = [ws[0], ws[len(ws) // 2], ws[-1]]
+                for w in ws:
+                    out.append((f"mag:{cls}:{tag}", e, w, c, exact))
+    return out
+
+
+def mag_points(rng, names, c):
+    """points for one magnitude case: positive, mixed signs, and one whose scale compensates the constant
+    (c·x = O(1), so that a tiny inner coefficient sits at an ordinary argument of the outer function)"""
+    names = sorted(names)
+    pos = lambda: {k: rng.randint(1, 16) / 8 + 1 / 16 for k in names}  # noqa: E731
+    pts = [pos(), {k: rng.randint(-16, 16) / 8 + 1 / 16 for k in names}]
+    a = abs(c)
+    if (1e-9 <= a <= 1e-2) or (1e2 <= a <= 1e9):
+        pts.append({k: v / a for k, v in pos().items()})
+    elif 0.5 < a < 2:
+        s = rng.choice([1e-6, 1e-3, 1e3, 1e6])
+        pts.append({k: v * s for k, v in pos().items()})
+    else:
+        pts.append(pos())
+    return pts
+
+
+def stored_numbers(e):
+    """every number stored in the tree (constants, coefficient arrays, matrices, powers), harness's own walk"""
+    from optyx.core.expressions import BinaryOp, Constant, UnaryOp
+
+    out, stack, seen = [], [e], set()
+    while stack:
+        t = stack.pop()
+        if id(t) in seen:
+            continue
+        seen.add(id(t))
+        if isinstance(t, Constant):
+            out += [float(v) for v in np.ravel(np.asarray(t.value, dtype=float))]
+        elif isinstance(t, BinaryOp):
+            stack += [t.left, t.right]
+        elif isinstance(t, UnaryOp):
+            stack.append(t.operand)
+        else:
+            for attr in ("coefficients", "power"):
+                v = getattr(t, attr, None)
+                if v is not None:
+                    out += [float(z) for z in np.ravel(np.asarray(v, dtype=float))]
+            m = getattr(t, "matrix", None)
+            if isinstance(m, np.ndarray):
+                out += [float(z) for z in np.ravel(m.astype(float))]
+            for attr in ("vector", "left", "right", "expression", "matrix"):
+                sub = getattr(t, attr, None)
+                ex = getattr(sub, "_expressions", None)
+                if ex is not None:
+                    stack += [z for row in ex for z in (row if isinstance(row, list) else [row])]
+    return out
+
+
+# relative perturbation patterns (in units of 4 ulp): mixed signs and incommensurable sizes, so that neither a sum
+# (cancellation between terms) nor a low-degree monomial x0^a·x1^b (opposite perturbations cancelling) is blind to them
+_PERT_SIGNS = ((1.0, -0.7071, 0.5774, -0.4472, 0.3780, -0.3015, 0.2774),
+               (-0.6325, 1.0, 0.5345, 0.4851, -0.2887, -0.9487, -0.3536),
+               (1.0, 1.0, 1.0, 1.0, 1.0, 1.0, 1.0))
+
+
+class _NumpyMath:
+    """stand-in for the `math` module inside oracle.py: the same functions from NumPy, which keep np.longdouble
+    (64-bit mantissa, exponent range 1e±4932) instead of converting to double"""
+    _ALIAS = {"asin": "arcsin", "acos": "arccos", "atan": "arctan", "asinh": "arcsinh", "acosh": "arccosh",
+              "atanh": "arctanh"}
+
+    def __getattr__(self, name):
+        return getattr(np, self._ALIAS.get(name, name))
+
+
+def _extended(fn, point):
+    """run a function of the harness's reference interpreter (oracle.py) in extended precision (np.longdouble
+    coordinates, NumPy functions in place of `math`); None if not regular / not finite"""
+    old = oracle.math
+    oracle.math = _NumpyMath()
+    try:
+        with warnings.catch_warnings(), np.errstate(all="ignore"):
+            warnings.simplefilter("ignore")
+            v = fn({k: np.longdouble(x) for k, x in point.items()})
+        return v if np.isfinite(v) else None
+    except (oracle.NotRegular, OverflowError, ZeroDivisionError, ValueError, TypeError):
+        return None
+    finally:
+        oracle.math = old
+
+
+def ref_grad_extended(e, point, wrt):
+    """the dual-number oracle re-run in extended precision"""
+    return _extended(lambda vals: oracle.ref_grad(e, vals, wrt), point)
+
+
+def ref_eval_extended(g, point):
+    """the value of the expression g by the harness's own interpreter in extended precision"""
+    return _extended(lambda vals: oracle.prim(oracle.ref_eval(g, vals)), point)
+
+
+def numeric_check_rel(e, w, point, rtol=MAG_RTOL):
+    """oracle on the real code, RELATIVE criterion: |gradient(e, w)(p) - D| <= rtol·|D| with D from dual numbers.
+    For trees whose stored numbers span many orders of magnitude the true derivative may itself be 1e-9- or
+    1e+9-sized, so an absolute tolerance says nothing.  returns None (ok) / 'skip' / failure dict.
+    Never an alarm because of rounding — a disagreement only counts when
+      (G0) D is finite, non-zero and far from under-/overflow of doubles;
+      (G1) D does not move by more than rtol/10 (relatively) when every coordinate is perturbed by a few ulps with
+           mixed signs and incommensurable sizes: bounds the condition number, incl. cancellation between terms;
+      (G2) the rounding error made in evaluating the *returned gradient expression* in doubles, measured against
+           the value of that same expression under the harness's interpreter in np.longdouble, is below rtol/10
+           (formulas such as 1 - tanh² at a saturated argument, under-/overflow of one association order);
+      (G3) the rounding error of the *oracle's* evaluation, measured by re-running it in np.longdouble, is below
+           rtol/10.
+    The oracle's absolute regularity margin (1e-3 around every singular set) is switched off here — a denominator
+    or a log argument 1e-10·x is tiny, not near-singular — only points ON a singular set are irregular; nearness in
+    the relative sense is what G1 measures."""
+    old_margin = oracle.MARGIN
+    oracle.MARGIN = 0.0
+    try:
+        return _numeric_check_rel(e, w, point, rtol)
+    finally:
+        oracle.MARGIN = old_margin
+
+
+def _numeric_check_rel(e, w, point, rtol):
+    import optyx.core.autodiff as AD
+
+    def ref(pt):
+        try:
+            v = oracle.ref_grad(e, pt, w.name)
+        except (oracle.NotRegular, OverflowError, ZeroDivisionError, ValueError):
+            return None
+        return v if math.isfinite(v) else None
+
+    want = ref(point)
+    if want is None or not (1e-250 < abs(want) < 1e250):
+        return "skip"
+    with warnings.catch_warnings(), np.errstate(all="ignore"):
+        warnings.simplefilter("ignore")
+        try:
+            g = AD.gradient(e, w)
+            got = float(np.asarray(g.evaluate(point)))
+        except Exception as ex:  # noqa: BLE001
+            return {"what": "gradient raised", "error": f"{type(ex).__name__}: {ex}"[:200], "criterion": "relative"}
+        if math.isfinite(got) and abs(got - want) <= rtol * abs(want):
+            return None
+        slack = 0.1 * rtol * abs(want)
+        names = sorted(point)
+        for signs in _PERT_SIGNS:                                                         # G1
+            pert = {k: point[k] * (1.0 + 4 * EPS * signs[i % len(signs)]) for i, k in enumerate(names)}
+            w2 = ref(pert)
+            if w2 is None or abs(w2 - want) > slack:
+                return "skip"
+        want_x = ref_grad_extended(e, point, w.name)                                      # G3
+        if want_x is None or abs(want_x - np.longdouble(want)) > slack:
+            return "skip"
+        got_x = ref_eval_extended(g, point)                                               # G2
+        if got_x is None:
+            return "skip"
+        if not math.isfinite(got):
+            nums = [abs(v) for v in stored_numbers(e) + list(point.values()) if v != 0.0]
+            if abs(got_x) < 1e300 or any(v < 1e-100 or v > 1e100 for v in nums):
+                return "skip"
+        elif abs(got_x - np.longdouble(got)) > slack:
+            return "skip"
+    return {"what": "gradient value differs from the true partial derivative (relative criterion)", "got": got,
+            "want": want, "rel_err": abs(got - want) / abs(want) if math.isfinite(got) else float("inf"),
+            "rtol": rtol, "criterion": "relative"}
+
+
+def magnitude_oracle(rng, cases, rep=None, limit=None):
+    """relative dual-number oracle over magnitude cases at mag_points; returns (failures, points checked); stops
+    after `limit` failures (one per case at most)"""
+    fails = []
+    n_pts = 0
+    for tag, e, w, c, _exact in cases:
+        names = {v.name for v in gen.expr_vars(e)} | {w.name}
+        for pt in mag_points(rng, names, c):
+            r = numeric_check_rel(e, w, pt)
+            n_pts += 1
+            if r == "skip":
+                if rep is not None:
+                    rep.skipped["mag-irregular-or-ill-conditioned"] = rep.skipped.get("mag-irregular-or-ill-conditioned", 0) + 1
+            elif r is not None:
+                try:
+                    s = ser(e)
+                except Unsupported as ex:
+                    s = f"unsupported:{ex}"
+                r.update({"expr": s, "wrt": w.name, "point": pt, "family": tag, "constant": c})
+                fails.append(r)
+                if limit is not None and len(fails) >= limit:
+                    return fails, n_pts
+                break
+    return fails, n_pts
+
+
 def py_gradients(e, w):
     """the real function through each of its tiers; returns {tier: serialised | 'raise:<Class>'}"""
     import optyx.core.autodiff as AD
@@ -268,7 +680,9 @@ def run(ctx) -> core.Report:
     thorough = ctx["tier"] == "thorough" or ctx["escalate"]
     rep = core.Report(rule="cell cover of the differentiator (operator × child-derivative shape, every unary "
                            "function, every registered vector rule × operand kind × wrt inside/outside) + seeded random "
-                           "trees; non-trivial = distinct (expression, wrt) whose gradient is not the literal 0")
+                           "trees + magnitude family (constants tiny / within 1e-15..1e-6 of ±1 / huge in every "
+                           "multiplicative, chain, exponent and coefficient position, relative dual-number oracle); "
+                           "non-trivial = distinct (expression, wrt) whose gradient is not the literal 0")
     cases = []
     for tag, e, w in cell_cover(rng):
         cases.append((tag, e, w, False))
@@ -302,6 +716,13 @@ def run(ctx) -> core.Report:
         vs = gen.expr_vars(e)
         if vs:
             cases.append(("shared:" + form, e, rng.choice(vs), True))
+
+    # magnitudes of the stored numbers (checklist 1): structural comparison where the rules do no float arithmetic
+    # on the numbers (quick: all such cases; thorough / escalated: every 4th, the oracle below sees all of them)
+    mag_cases = magnitude_cover(rng, thorough)
+    for i, (tag, e, w, _c, exact) in enumerate(mag_cases):
+        if exact and (not thorough or i % 4 == 0):
+            cases.append((tag, e, w, False))
 
     ids = Ids()
     lines, metas = [], []
@@ -359,12 +780,18 @@ def run(ctx) -> core.Report:
                 r.update({"expr": s, "wrt": w.name, "point": pt})
                 rep.oracle_failures.append(r)
     rep.histogram["numeric_oracle_points"] = n_num
+    # relative oracle over the magnitude family
+    fails, n_mag = magnitude_oracle(rng, mag_cases, rep, limit=25)
+    rep.oracle_failures.extend(fails)
+    rep.histogram["magnitude_cases"] = len(mag_cases)
+    rep.histogram["magnitude_oracle_points"] = n_mag
     return rep
 
 
 def search(ctx, rep):
-    """correspondence or proof broken and no failing input among the cases of this run:
-    widen — many more regular-by-construction random trees against the dual-number oracle"""
+    """correspondence or proof broken and no failing input among the cases of this run: widen — the mismatching
+    cases themselves at many points (absolute and relative criterion), then the full magnitude family with fresh
+    mantissas, then many more regular-by-construction random trees against the dual-number oracle"""
     rng = core.Rng(ctx["seed"] + 7919)
     # first the disagreeing cases themselves, at many points (incl. negative coordinates)
     seen = set()
@@ -383,10 +810,14 @@ def search(ctx, rep):
             continue
         for _ in range(40):
             pt = gen.rand_point(rng, vs, lo=-3.0, hi=3.0)
-            r = numeric_check(e, w, pt)
-            if r not in (None, "skip"):
-                r.update({"expr": mm["expr"], "wrt": w.name, "point": pt})
-                return r
+            for chk in (numeric_check, numeric_check_rel):
+                r = chk(e, w, pt)
+                if r not in (None, "skip"):
+                    r.update({"expr": mm["expr"], "wrt": w.name, "point": pt})
+                    return r
+    fails, _ = magnitude_oracle(rng, magnitude_cover(rng, True), limit=1)
+    if fails:
+        return fails[0]
     for i in range(12000):
         U = gen.Universe(rng)
         e = gen.rand_expr(rng, U, rng.randint(1, 5), safe=True)
@@ -410,7 +841,8 @@ def replay(payload) -> bool:
 
     w = next((v for v in gen.expr_vars(e) if v.name == f["wrt"]), Variable(f["wrt"]))
     if "point" in f:
-        r = numeric_check(e, w, {k: float(v) for k, v in f["point"].items()})
+        chk = numeric_check_rel if f.get("criterion") == "relative" else numeric_check
+        r = chk(e, w, {k: float(v) for k, v in f["point"].items()})
         print("numeric_check:", r)
         return r in (None, "skip")
     py = py_gradients(e, w)
